@@ -58,7 +58,14 @@ def main():
     results = {}
     try:
         repo = os.path.join(base, 'repo')
-        subprocess.check_call(['rsync', '-a', '--exclude', '.git', '/repo/', repo + '/'])
+        seed_base = os.environ.get('SEED_BASE')
+        if seed_base:
+            # the injection was written against an older /repo (a later fix: commit touches the same lines)
+            os.makedirs(repo)
+            sh('git -C /repo archive %s | tar -x -C %s' % (seed_base, repo))
+            report['base'] = seed_base
+        else:
+            subprocess.check_call(['rsync', '-a', '--exclude', '.git', '/repo/', repo + '/'])
         rc, out = sh('patch -p1 --no-backup-if-mismatch < %s' % os.path.join(wt, 'patch.diff'), cwd=repo)
         if rc != 0:
             print('patch does not apply to /repo copy:\n' + out)
@@ -69,7 +76,8 @@ def main():
             rc, out = sh('%s %s --tier %s' % (os.path.join(VERIF, 'run_check.py'), cid, tier), env=env, timeout=7200)
             buckets = [l for l in out.splitlines() if l.startswith('violation bucket')]
             results[cid] = {'exit': rc, 'buckets': [b[:300] for b in buckets[:5]], 'summary': out.strip().splitlines()[-1][:300] if out.strip() else ''}
-            report['ran'].append('VERIF_REPO=<copy of /repo + patch> run_check.py %s --tier %s -> exit %d' % (cid, tier, rc))
+            report['ran'].append('VERIF_REPO=<copy of /repo%s + patch> run_check.py %s --tier %s -> exit %d'
+                                 % (' at ' + seed_base if seed_base else '', cid, tier, rc))
             # keep the shrunk replay of the first bucket
             vd = os.path.join(base, 'out', 'violations', cid)
             if os.path.isdir(vd):
